@@ -5,6 +5,7 @@
 #include <cstdio>
 #include <cstdlib>
 #include <cstring>
+#include <ctime>
 #include <fcntl.h>
 #include <fstream>
 #include <functional>
@@ -334,6 +335,10 @@ static int classify(const std::string &path) {
 
 // ---------------------------------------------------------------- minimisation (ddmin over ops, then faults, inputs, grammars)
 static bool has_class(const Plan &p, const std::string &cls, const std::string &exe, long *budget) {
+  // minimisation also has a wall-clock limit (a violation that is a hang costs a full time-out per attempt);
+  // the limit only decides how small the replay file gets, never the verdict
+  static time_t t0 = time(nullptr);
+  if (time(nullptr) - t0 > 150) *budget = 0;
   if (*budget <= 0) return false;
   (*budget)--;
   ClassResult cr = classify_text(plan_to_text(p), exe);
